@@ -120,6 +120,16 @@ func loadSession() (*Session, error) {
 		return nil, err
 	}
 	g.spec = sp
+	if lk, err := loadLock(); err == nil && lk != nil && len(lk.Names) > 0 {
+		g.renames = map[string]map[string]string{}
+		for fn, cur := range g.allDeclaredNames() {
+			if old, ok := lk.Names[fn]; ok {
+				if r := renameMap(old, cur); r != nil {
+					g.renames[fn] = r
+				}
+			}
+		}
+	}
 	s := &Session{g: g, fns: map[string]*ssa.Function{}, started: start}
 	var add func(fn *ssa.Function)
 	add = func(fn *ssa.Function) {
